@@ -22,10 +22,10 @@ WATCHDOG = {"quick": 900, "thorough": 3000}
 
 
 def cases(ctx):
-    for i in range(ctx.pick(150, 3000)):
+    for i in range(ctx.pick(300, 12000)):
         yield "history", {"seed": ctx.subseed("h", i)}
     algos = ["nsga2", "epsmoea", "omopso", "smpso", "psoga", "sweep", "scipy", "nlopt"]
-    for i in range(ctx.pick(24, 400)):
+    for i in range(ctx.pick(48, 1600)):
         yield "run", {"seed": ctx.subseed("r", i), "algo": algos[i % len(algos)]}
 
 
